@@ -352,6 +352,31 @@ class Cluster(object):
             kw['journalFile'] = os.path.join(self.workdir, nid + '.journal')
         if c.get('dump'):
             kw['fullDumpFile'] = os.path.join(self.workdir, nid + '.dump')
+        if c.get('userser'):
+            # user-supplied serializer functions: the application stores and restores ITS state (here: hist), the library
+            # hands over / takes back what it needs itself.  The file has the layout of the built-in dump, so that the
+            # projection reads all modes alike.
+            cluster = self
+
+            def user_serializer(fileName, data, nid=nid):
+                o = cluster.nodes[nid].obj
+                state = {'hist': list(getattr(o, 'hist', [])),
+                         '_SyncObj__enabledCodeVersion': int(getattr(o, '_SyncObj__enabledCodeVersion'))}
+                import pysyncobj.serializer as S_
+                with S_.open(fileName, 'wb') as f:
+                    with S_.gzip.GzipFile(fileobj=f, mode='wb') as g:
+                        sopickle.dump((state,) + tuple(data), g)
+
+            def user_deserializer(fileName, nid=nid):
+                import pysyncobj.serializer as S_
+                with S_.open(fileName, 'rb') as f:
+                    with S_.gzip.GzipFile(fileobj=f) as g:
+                        d = sopickle.load(g)
+                o = cluster.nodes[nid].obj
+                o.hist = list(d[0]['hist'])
+                return tuple(d[1:])
+            kw['serializer'] = user_serializer
+            kw['deserializer'] = user_deserializer
         return SyncObjConf(**kw)
 
     def _start(self, nid, members, voter=True):
